@@ -35,6 +35,7 @@ type verifConfIfaceChange struct {
 	Ready bool     `json:"ready"`
 	Snaps []string `json:"snaps"`
 	Down  bool     `json:"down"`
+	Done  []string `json:"done"`
 }
 
 type verifConfIfaceSt struct {
@@ -66,11 +67,12 @@ func (s *verifConfIfaceSuite) project(c *C, same bool) verifConfIfaceSt {
 	ps := verifConfIfaceSt{Same: same, NChg: len(s.state.Changes()), Changes: []verifConfIfaceChange{},
 		Status: map[string]string{"a": "active", "b": "active", "c": "active", "snapd": "active"}}
 	for _, chg := range s.chgs {
-		pc := verifConfIfaceChange{Kind: chg.Kind(), Ready: chg.IsReady(), Snaps: []string{}}
+		pc := verifConfIfaceChange{Kind: chg.Kind(), Ready: chg.IsReady(), Snaps: []string{}, Done: []string{}}
 		if pc.Ready {
-			pc = verifConfIfaceChange{Kind: "done", Ready: true, Snaps: []string{}}
+			pc = verifConfIfaceChange{Kind: "done", Ready: true, Snaps: []string{}, Done: []string{}}
 		} else {
 			set := map[string]bool{}
+			pending := map[string]bool{}
 			for _, t := range chg.Tasks() {
 				names, err := snapstate.SnapsAffectedByTask(t)
 				c.Assert(err, IsNil)
@@ -80,12 +82,19 @@ func (s *verifConfIfaceSuite) project(c *C, same bool) verifConfIfaceSt {
 						sn = "?" + n
 					}
 					set[sn] = true
+					if !t.Status().Ready() {
+						pending[sn] = true
+					}
 				}
 			}
 			for n := range set {
 				pc.Snaps = append(pc.Snaps, n)
+				if !pending[n] {
+					pc.Done = append(pc.Done, n)
+				}
 			}
 			sort.Strings(pc.Snaps)
+			sort.Strings(pc.Done)
 		}
 		ps.Changes = append(ps.Changes, pc)
 	}
@@ -201,8 +210,28 @@ func (s *verifConfIfaceSuite) TestVerifConflictsIfaceRun(c *C) {
 			case p < 5 || exclSeen:
 				inject(irrelevant[r.Intn(len(irrelevant))], []string{[]string{"a", "b", "c"}[r.Intn(3)]})
 			default:
-				inject(ordinary[r.Intn(len(ordinary))], []string{free[0]})
+				T := []string{free[0]}
 				free = free[1:]
+				if len(free) > 0 && r.Intn(2) == 0 {
+					T = append(T, free[0])
+					free = free[1:]
+					sort.Strings(T)
+				}
+				inject(ordinary[r.Intn(len(ordinary))], T)
+				if len(T) == 2 && r.Intn(3) != 0 {
+					// the lane of one of the two snaps finishes, the change keeps running
+					idx := len(s.chgs)
+					sn := T[r.Intn(2)]
+					for _, t := range s.chgs[idx-1].Tasks() {
+						names, err := snapstate.SnapsAffectedByTask(t)
+						c.Assert(err, IsNil)
+						if len(names) == 1 && verifConfIfaceSpec[names[0]] == sn {
+							t.SetStatus([]state.Status{state.DoneStatus, state.UndoneStatus, state.ErrorStatus, state.HoldStatus}[r.Intn(4)])
+						}
+					}
+					c.Assert(s.chgs[idx-1].IsReady(), Equals, false)
+					s.emit(c, "Partial", map[string]interface{}{"c": idx, "s": sn}, nil, true)
+				}
 			}
 		}
 
